@@ -22,7 +22,7 @@ Mirrored as written:
     without duplicates and called after every watcher is installed
   * `_m_caller/_sync_caller` with `changed=None`: the method runs once per watcher invocation
   * `depends.py depends` function form: one `param.watch(cb, [names…])` per owner, precedence 0,
-    names NOT de-duplicated; `_register_watcher` appends the watcher once per listed name
+    names de-duplicated (`dict.fromkeys`); `_register_watcher` appends the watcher once per listed name
   * `Parameter.__set__` tail, `Parameter.__setattr__/_trigger_event` (slots), `_call_watcher`,
     `_batch_call_watchers`, `Parameters._update`, `batch_call_watchers`.
 -/
@@ -98,9 +98,9 @@ def instantiate (table : List Entry) (vals : List (Key × Int)) : IWorld :=
     log := initCalls [] table }
 
 /-- function form `@param.depends(obj.param.p, obj.param.q, watch=True)` on this instance:
-`obj.param.watch(cb, [names…])`.  src: depends.py depends -/
+`obj.param.watch(cb, list(dict.fromkeys(names…)))`.  src: depends.py depends -/
 def fnWatch (w : IWorld) (label : Name) (names : List Name) : IWorld :=
-  { w with regs := w.regs ++ [⟨w.regs.length, label, names, "value", false, 0⟩] }
+  { w with regs := w.regs ++ [⟨w.regs.length, label, dedupInto [] names, "value", false, 0⟩] }
 
 /-! ### dispatch -/
 
